@@ -38,6 +38,21 @@ PROPS["C09"] = {
     ],
     "assumptions": ["field values within protocol limits (WFv): strings < 2^31 bytes and valid UTF-8, text components in string form ≤ 65535 bytes"],
 }
+PROPS["C13"] = {
+    "runner": "c13",
+    "design_ref": "DESIGN.md §6 C13",
+    "technique": "Lean 4 theorems by induction over arbitrary histories for any admission arithmetic satisfying two laws: per-window bound, interval bound, reject-consumes-nothing, idle readmission, per-key independence (simulation incl. cleanup), tracked-keys recency; differential correspondence of the exact-arithmetic model against the real RateLimiter under paused tokio time",
+    "level_text": "Machine-checked proofs for every history, any number of keys, any limit >= 1 and duration > 0: (A) at most `limit` admitted per window start, (B) at most 2*limit admitted in any closed interval of one duration (non-decreasing times), (C) a rejected attempt leaves exactly the time-driven roll, (D) a bucket idle for two durations (or an unseen key) is admitted, (E) decisions for a key in any multi-key history equal a single-key limiter without cleanup on its own attempts, (F) right after every admitted attempt each tracked key attempted within the last four durations. The executable exact-arithmetic model is compared decision-by-decision and tracked-key-set-by-set (hook tracked_keys) with the real limiter on generated histories on and off the dyadic grid; an independent naive per-key oracle judges (A)(B)(D)(E)(F) on the real decisions.",
+    "level_note": "Trusted: Lean kernel; f32 admission arithmetic is abstracted by two laws (proved for the exact instance; IEEE f32 satisfies them for limit <= 2^24 by monotone rounding — argued, not proved; violated above: known finding); tokio paused clock; (C-strong: readmission 2 durations after the last ADMITTED attempt under exact arithmetic) is not proved yet.",
+    "lean_modules": ["Passage.Props.C13"],
+    "cases": {"quick": 1200, "thorough": 30000},
+    "rule": "histories: 1..50 keys (thorough: ..2000), 1..300 attempts (thorough ..3000), six inter-arrival styles (one instant, sub-window, exact d/2d boundaries +-1 unit, multiples of d, mixed), limits 1..50, durations 1ns..hours; half on the dyadic grid (f32 exact), half off-grid (rounding ties within 2^-20 dropped and counted in runner_tail); plus saturation probes at limits 2^24 and 2^24+2; non-trivial = histories with at least one rejection or roll (every generated history with > 1 attempt); distinct = distinct request lines",
+    "trusted_base": TB_COMMON + [
+        "admission arithmetic abstracted by Arith laws L1/L2; f32 conformance for limit <= 2^24 is argued and tested, not proved",
+        "tokio paused clock and Instant arithmetic",
+    ],
+    "assumptions": ["attempt times are non-decreasing (monotonic clock)", "1 <= limit <= 2^24 for the f32 implementation (above: KNOWN-FINDING)"],
+}
 
 # properties not claimed yet (kept current; the reason is the honest status)
 NOT_YET = {f"C{i:02d}": "check not built yet in this round (planned per DESIGN.md §9); no claim is made until its check runs green" for i in range(1, 21)}
